@@ -1183,7 +1183,7 @@ def _menu():
     for buffered in (False, True):
         cap = 4 + (2 if buffered else 0)
         nm = f"ClockDomainCrossing(a->b,buffered={buffered})/mem=sim"
-        reg(nm, Q if not buffered else T, (lambda nm=nm, buffered=buffered, cap=cap: CdcStreamHarness(nm, _cdc(buffered), cap)))
+        reg(nm, Q, (lambda nm=nm, buffered=buffered, cap=cap: CdcStreamHarness(nm, _cdc(buffered), cap)))
         nm = f"ClockDomainCrossing(a->b,buffered={buffered},with_common_rst)/reset_pulses"
         mkw = (lambda buffered=buffered, cap=cap: CommonRstWrapper(_layout(cap), None, buffered))
         reg(nm, Q if not buffered else T, (lambda nm=nm, mkw=mkw, cap=cap: CdcStreamResetHarness(nm, mkw, cap, hold=(1, 2), cap=4_000_000)))
